@@ -3,7 +3,7 @@ import RbpfModel.Generated.BuilderTables
 namespace Rbpf
 open Rbpf.Builder Rbpf.Generated.BuilderTables
 
-theorem BuilderSrc_translated : enumsSrcOk = true ∧ optSrcOk = true ∧ ctorSrcOk = true ∧ intoBytesSrcOk = true := by decide
+theorem BuilderSrc_translated : enumsSrcOk = true ∧ optSrcOk = true ∧ ctorSrcOk = true ∧ intoBytesSrcOk = true ∧ pushShape = true := by decide
 
 /-- the discriminants of the seven enums -/
 theorem BuilderSrc_enums :
